@@ -89,5 +89,49 @@ theorem draws_run {m : Prog α β} {c : ℕ} (hm : Draws m c) {ds : List Bool} {
   simp only at this
   exact ⟨this.2, by simp [this.1]⟩
 
+/-! ### what one `torch.bernoulli` call presents and returns, on every path -/
+
+/-- a `B × m` tensor flattened row-major (the order in which the recorder flattens it) -/
+def flatM {δ : Type} {B m : ℕ} (f : Fin B → Fin m → δ) : List δ := (List.ofFn fun b => List.ofFn (f b)).flatten
+
+theorem flatM_length {δ : Type} {B m : ℕ} (f : Fin B → Fin m → δ) : (flatM f).length = B * m := by
+  simp [flatM, List.length_flatten, Function.comp_def]
+
+/-- prepend an entry to a finite vector (the `Fin.cases` of `flipVec` / `flipMat`) -/
+def consB {δ : Type} {m : ℕ} (t : δ) (rest : Fin m → δ) : Fin (m + 1) → δ := fun i => Fin.cases t rest i
+
+/-- on every path, `flipVec m p` presents exactly the vector `p` in index order, and its result is the vector of the draws made -/
+theorem paths_flipVec (m : ℕ) (p : Fin m → α) :
+    ∀ x ∈ (flipVec m p).paths, x.2.1 = List.ofFn p ∧ x.2.2 = List.ofFn x.1 := by
+  induction m with
+  | zero => intro x hx; simp only [flipVec, paths, List.mem_singleton] at hx; subst hx; simp
+  | succ m ih =>
+    intro x hx
+    have hk : ∀ t : Bool, ((flipVec m (fun i => p i.succ)).bind fun rest =>
+        ret (fun i => Fin.cases t rest i : Fin (m + 1) → Bool)).paths
+          = (flipVec m (fun i => p i.succ)).paths.map (fun y => ((fun i => Fin.cases t y.1 i : Fin (m + 1) → Bool), y.2)) :=
+      fun t => paths_map (β := Fin m → Bool) (γ := Fin (m + 1) → Bool) (consB t) (flipVec m (fun i => p i.succ))
+    simp only [flipVec, paths, hk, List.mem_append, List.mem_map] at hx
+    rcases hx with ⟨y, ⟨z, hz, rfl⟩, rfl⟩ | ⟨y, ⟨z, hz, rfl⟩, rfl⟩ <;>
+      simp [List.ofFn_succ, (ih _ z hz).1, (ih _ z hz).2]
+
+/-- on every path, `flipMat B m p` presents exactly the matrix `p` row-major, and its result is the matrix of the draws made -/
+theorem paths_flipMat (B m : ℕ) (p : Fin B → Fin m → α) :
+    ∀ x ∈ (flipMat B m p).paths, x.2.1 = flatM p ∧ x.2.2 = flatM x.1 := by
+  induction B with
+  | zero => intro x hx; simp only [flipMat, paths, List.mem_singleton] at hx; subst hx; simp [flatM]
+  | succ B ih =>
+    intro x hx
+    have hk : ∀ row : Fin m → Bool, ((flipMat B m (fun b => p b.succ)).bind fun rest =>
+        ret (fun b => Fin.cases row rest b : Fin (B + 1) → Fin m → Bool)).paths
+          = (flipMat B m (fun b => p b.succ)).paths.map
+              (fun y => ((fun b => Fin.cases row y.1 b : Fin (B + 1) → Fin m → Bool), y.2)) :=
+      fun row => paths_map (β := Fin B → Fin m → Bool) (γ := Fin (B + 1) → Fin m → Bool) (consB row)
+        (flipMat B m (fun b => p b.succ))
+    simp only [flipMat, paths_bind, hk, List.mem_flatMap, List.mem_map] at hx
+    obtain ⟨y, hy, _, ⟨z, hz, rfl⟩, rfl⟩ := hx
+    simp [flatM, List.ofFn_succ, (ih _ z hz).1, (ih _ z hz).2, (paths_flipVec m (p 0) y hy).1,
+      (paths_flipVec m (p 0) y hy).2]
+
 end Prog
 end QV
